@@ -10,3 +10,8 @@ if [ ! -x .venv/bin/python ] || ! .venv/bin/python -c "import z3, sympy, numpy, 
   PIP_NO_INDEX=1 .venv/bin/python -m pip install -q --no-index --find-links /opt/veriftools/wheels z3-solver sympy cvc5 jsonschema >/dev/null
 fi
 .venv/bin/python -c "import z3, sympy, numpy, numba; print('d3vc interpreter ok: z3', z3.get_version_string(), 'numpy', numpy.__version__, 'numba', numba.__version__)"
+# meta-rules used by the C05 contracts (rank induction on a finite index set): checked by Lean 4 + Mathlib (pre-built oleans, ~4 min cold)
+mkdir -p .work
+if command -v lean >/dev/null 2>&1; then
+  if (cd lean && timeout 1200 lean FinRank.lean >/dev/null 2>../.work/lean_err.txt); then echo ok > .work/lean_ok; echo "lean/FinRank.lean accepted"; else rm -f .work/lean_ok; echo "lean/FinRank.lean NOT checked (see .work/lean_err.txt)"; fi
+fi
